@@ -266,6 +266,27 @@ impl Monitor for C18 {
                     }
                 }
                 "decrease_liquidity" | "decrease_liquidity_v2" | "reposition_liquidity_v2" => {
+                    if name == "reposition_liquidity_v2" {
+                        // re-ranging: only to a valid range (explicit bounds), leaving exactly that range behind
+                        if let Some(pool) = pre.data(&c.a("whirlpool")).and_then(decode::pool) {
+                            let mut r = c.args();
+                            let (lo, hi) = (r.i32(), r.i32());
+                            let usable = |t: i32| t >= MIN_TICK && t <= MAX_TICK && t % pool.tick_spacing as i32 == 0;
+                            let fro_ok = pool.tick_spacing < 32768 || (lo == min_usable(pool.tick_spacing) && hi == max_usable(pool.tick_spacing));
+                            let valid = usable(lo) && usable(hi) && lo < hi && fro_ok;
+                            cov.eval(format!("{}|new_range_valid={}|ok={}", name, valid, ok));
+                            if ok && !valid {
+                                out.push(viol("invalid_range_accepted", ev.idx, format!("reposition_liquidity_v2 accepted the new range {}..{} on a pool with spacing {}", lo, hi, pool.tick_spacing)));
+                            }
+                            if ok {
+                                if let Some(q) = post.unwrap().data(&c.a("position")).and_then(decode::position) {
+                                    if q.lower != lo || q.upper != hi {
+                                        out.push(viol("resolved_range", ev.idx, format!("reposition to {}..{} left the range {}..{}", lo, hi, q.lower, q.upper)));
+                                    }
+                                }
+                            }
+                        }
+                    }
                     let locked = frozen(pre, &c.a("position_token_account"));
                     if locked {
                         cov.eval(format!("{}|locked|ok={}", name, ok));
